@@ -63,6 +63,16 @@ Theorem C03_offdeg_from_eq : S_offdeg_from_eq.
 Proof. exact offdeg_from_eq. Qed.
 Print Assumptions C03_offdeg_from_eq.
 
+(** both scans with the degree ring as the code has it: [window] slots indexed by
+    [node mod window], pre-filled in ascending node order, untouched when the window is 0 *)
+Theorem C03_offdeg_ring_eq : S_offdeg_ring_eq.
+Proof. exact offdeg_ring_eq. Qed.
+Print Assumptions C03_offdeg_ring_eq.
+
+Theorem C03_offdeg_from_ring_eq : S_offdeg_from_ring_eq.
+Proof. exact offdeg_from_ring_eq. Qed.
+Print Assumptions C03_offdeg_from_ring_eq.
+
 (** non-vacuity: a graph with copied blocks, intervals, residuals, an empty node and
     reference chains, encoded with the greedy selector (proved valid and depth-bounded, C06);
     every path of the model evaluated on the emitted bits *)
@@ -79,5 +89,9 @@ Example C03_nonvacuous :
   /\ acc_ra true cs p offs s 6 = Some [1;2;5;8;9;10;12]
   /\ ra_labels bits (rd_bits true cs) (seek_bits offs s) p 1 6 = None
   /\ acc_iter_from true cs p offs s 5 = Some [[2;5;8]; [1;2;5;8;9;10;12]]
-  /\ acc_offdeg_from true cs p offs s 4 = Some [(79, 4); (98, 3); (116, 7)].
+  /\ acc_iter_from_ring true cs p offs s 5 = Some [[2;5;8]; [1;2;5;8;9;10;12]]
+  /\ acc_ra_merge true cs p offs s 3 = Some [1;2;5;8;9;10;11]
+  /\ acc_next_successors true cs p 7 s = Some g
+  /\ acc_offdeg_from true cs p offs s 4 = Some [(79, 4); (98, 3); (116, 7)]
+  /\ acc_offdeg_from_ring true cs p offs s 4 = Some [(79, 4); (98, 3); (116, 7)].
 Proof. vm_compute. repeat split; reflexivity. Qed.
